@@ -59,28 +59,86 @@ func ruleP17Rounding(p *Prog, r *Report) {
 		r.bad(rule, "rounded", p.instrPos(plus), "the rounded offset is not passed as a duration of minutes")
 		return
 	}
-	// mins = offset - remainder + up
-	var up ssa.Value
-	okShape := mins.C == 0 && len(mins.Terms) == 3
-	for k, c := range mins.Terms {
-		v := mins.leafV[k]
-		switch {
-		case c == 1 && isOffset(v):
-		case c == -1 && isRemainder(v):
-		case c == 1:
-			up = v
-		default:
+	// mins = offset - remainder + up, where up is v or 0 depending on the remainder; either with a
+	// separate `up` value, or with the whole sum selected by the condition
+	type uprow struct {
+		guards      []Guard
+		isV, isZero bool
+		at          ssa.Instruction
+	}
+	classify := func(pl *Poly, needBase bool) (upV, upZero, ok bool) {
+		var nOff, nRem, nV, nOther int64
+		for k, c := range pl.Terms {
+			v := pl.leafV[k]
+			switch {
+			case isOffset(v):
+				nOff += c
+			case isRemainder(v):
+				nRem += c
+			case isV(v):
+				nV += c
+			default:
+				nOther++
+			}
+		}
+		if nOther != 0 || pl.C != 0 {
+			return false, false, false
+		}
+		if needBase {
+			if nOff != 1 || nRem != -1 {
+				return false, false, false
+			}
+		} else if nOff != 0 || nRem != 0 {
+			return false, false, false
+		}
+		return nV == 1, nV == 0, nV == 0 || nV == 1
+	}
+	var rowsU []uprow
+	okShape := false
+	if len(mins.Terms) == 3 && mins.C == 0 {
+		var up ssa.Value
+		okShape = true
+		for k, c := range mins.Terms {
+			v := mins.leafV[k]
+			switch {
+			case c == 1 && isOffset(v):
+			case c == -1 && isRemainder(v):
+			case c == 1:
+				up = v
+			default:
+				okShape = false
+			}
+		}
+		if okShape && up != nil {
+			for _, rw := range valueRows(up, 0, map[ssa.Value]bool{}) {
+				iv, iz, _ := classify(polyOf(rw.val), false)
+				rowsU = append(rowsU, uprow{rw.guards, iv, iz, rw.at})
+			}
+		} else {
 			okShape = false
 		}
+	} else if len(mins.Terms) == 1 && mins.C == 0 {
+		for k, c := range mins.Terms {
+			if c != 1 {
+				continue
+			}
+			okShape = true
+			for _, rw := range valueRows(mins.leafV[k], 0, map[ssa.Value]bool{}) {
+				iv, iz, ok := classify(polyOf(rw.val), true)
+				if !ok {
+					okShape = false
+				}
+				rowsU = append(rowsU, uprow{rw.guards, iv, iz, rw.at})
+			}
+		}
 	}
-	r.check(okShape && up != nil, rule, "rounded", p.instrPos(plus), "rounded = offset - (offset % v) + up", "the rounded offset is not offset - offset%v + up: "+mins.String())
-	if up == nil {
+	r.check(okShape && len(rowsU) > 0, rule, "rounded", p.instrPos(plus), "rounded = offset - (offset % v) + up", "the rounded offset is not offset - offset%v + up: "+mins.String())
+	if !okShape {
 		return
 	}
 	// up: v when remainder >= v/2 + v%2 (ties up), else 0
-	rows := valueRows(up, 0, map[ssa.Value]bool{})
 	var sawUp, sawDown bool
-	for i, rw := range rows {
+	for i, rw := range rowsU {
 		key := fmt.Sprintf("up:row#%d", i)
 		var cond *Guard
 		for j := range rw.guards {
@@ -119,11 +177,10 @@ func ruleP17Rounding(p *Prog, r *Report) {
 		}
 		if cond.Pol {
 			sawUp = true
-			r.check(isV(rw.val), rule, key+":up", pos, "remainder >= ceil(v/2) -> round up by v", "at or above half the step the time is not rounded up by exactly v")
+			r.check(rw.isV, rule, key+":up", pos, "remainder >= ceil(v/2) -> round up by v", "at or above half the step the time is not rounded up by exactly v")
 		} else {
 			sawDown = true
-			k, isK := constInt(rw.val)
-			r.check(isK && k == 0, rule, key+":down", pos, "remainder < ceil(v/2) -> round down", "below half the step the time is not rounded down")
+			r.check(rw.isZero, rule, key+":down", pos, "remainder < ceil(v/2) -> round down", "below half the step the time is not rounded down")
 		}
 	}
 	r.check(sawUp && sawDown, rule, "up:cases", p.pos(f.Pos()), "both rounding directions present", "a rounding direction is missing")
